@@ -75,6 +75,10 @@ func (r RegistryHandler) MatchDataSignature(data []byte) bool {
 	if err != nil {
 		return false
 	}
+	// a serialized container followed by other bytes is not a protected value as a whole
+	if _, err := validateSerializedContainer(data); err == nil && len(internal) != len(data)-SerializedContainerMinSize {
+		return false
+	}
 
 	handler, err := GetHandlerByEnvelopeID(envelopeID)
 	if err != nil {
